@@ -664,7 +664,7 @@ def _site(name):
 
 class ParamNodeClone(Contract):
     name = f"{PNODE}.clone"
-    prop = ("C14",)
+    prop = ("C14", "C07")
     top_level = True
     cases = ("group", "scale")
     descr = ("a cloned parameter group / scale shares no mutable part with the original: its metadata is a copy of its own (changing "
@@ -755,7 +755,7 @@ class NeutralizedHelper(Contract):
 
 class VariableSet(Contract):
     name = f"{VAR}.set"
-    prop = ("C14",)
+    prop = ("C14", "C01")
     top_level = True
     cases = ("redefined", "inherited", "missing-required", "neither", "redefined-as-empty-text", "redefined-as-false", "redefined-as-zero")
     FALSY = {"redefined-as-empty-text": ("label", "", "str"), "redefined-as-false": ("is_period_size_independent", False, "bool"),
